@@ -424,7 +424,7 @@ impl Check for C35 {
         tier.pick(24_000, 1_200_000)
     }
     fn budget_s(&self, tier: Tier) -> u64 {
-        tier.pick(18, 360)
+        tier.pick(18, 330)
     }
     fn min_nontrivial(&self, tier: Tier) -> u64 {
         tier.pick(1000, 20_000)
@@ -433,7 +433,7 @@ impl Check for C35 {
         true
     }
     fn rule(&self) -> String {
-        "case n: n mod 4 = 0: a column of type (n/4) mod 24 is built by 5-80 (thorough: -300) random C34-style edits, saved, loaded with load / load_with(max_segments) / load_with(length) and compared with the Vec, re-saved and re-loaded, and its bytes are fed to 3 other column types; = 1 or 2: a valid encoding of a small column (same type 70%, another type 30%) gets 1-8 byte-level mutations (bit flips, byte sets, truncation, deletions, insertions, LEB overflows ff*10 / 80*9 02 / overlong, null runs, header rewrites, invalid UTF-8) and is loaded; = 3: hand-crafted hostile run streams (count 0/1 runs, mergeable runs, equal literals, huge counts up to i64::MAX, literal counts beyond the data, nulls, invalid UTF-8 and over-long string lengths, delta sums leaving i64 / the type's domain, bool count streams) or arbitrary bytes. Every load and every later read/save runs under catch_unwind: a panic is a violation; an Ok column must read consistently (to_vec = iter = runs = get; huge columns by deterministic sampling) and its save() must load to the same values; the from_utf8_unchecked tripwire must stay at 0. Non-trivial = load succeeded or the bytes are <= 8 edits from a valid encoding; distinct by (type, input hash).".into()
+        "case n: n mod 4 = 0: a column of type (n/4) mod 24 is built by 5-80 (thorough: -300) random C34-style edits, saved, loaded with load / load_with(max_segments) / load_with(length) and compared with the Vec, re-saved and re-loaded, and its bytes are fed to 3 other column types; = 1 or 2: a valid encoding of a small column (same type 70%, another type 30%) gets 1-8 byte-level mutations (bit flips, byte sets, truncation, deletions, insertions, LEB overflows ff*10 / 80*9 02 / overlong, null runs, header rewrites, invalid UTF-8) and is loaded; = 3: hand-crafted hostile run streams (count 0/1 runs, mergeable runs, equal literals, huge counts up to i64::MAX, literal counts beyond the data, nulls, invalid UTF-8 and over-long string lengths, delta sums leaving i64 / the type's domain, bool count streams) or arbitrary bytes. Each input is loaded three ways (load, load_with(max_segments 2..8), load_iter with 0-5 runs pulled then finalize). Every load and every later read/save runs under catch_unwind: a panic is a violation; an Ok column must read consistently (to_vec = iter = runs = get; huge columns by deterministic sampling) and its save() must load to the same values; the from_utf8_unchecked tripwire must stay at 0. Non-trivial = load succeeded or the bytes are <= 8 edits from a valid encoding; distinct by (type, input hash).".into()
     }
     fn required_counters(&self) -> Vec<&'static str> {
         let mut v = vec!["loads_ok", "loads_err", "mutated_accepted", "crafted_or_arbitrary_accepted", "roundtrips", "resave_roundtrips", "cross_type_loads", "unchecked_str_reads", "huge_columns_sampled"];
